@@ -1936,3 +1936,233 @@ func c06Round4(c *Ctx, ix *Index) {
 	}
 	c.Check(len(body) > 0 && hit == nil, "C06.discard", inst, site, "an iteration of the loop over the root types reaches the next one only through the copy loop or through `sequence number of this type == 0`", "an iteration of the copy loop can be skipped for a reason other than that root type's own sequence number being zero: with several root types finalized in one version the staged nodes of a winning fork are not copied before the pending set is deleted, and the finalized root has missing nodes")
 }
+
+// round-4 rules written after the seeds of C07, C11, C12 and C13 (10..12) were missed.
+
+func keyFmtGlobals(fn *ssa.Function, out map[string]bool) {
+	for _, b := range fn.Blocks {
+		for _, in := range b.Instrs {
+			for _, op := range in.Operands(nil) {
+				if op == nil || *op == nil {
+					continue
+				}
+				if g, ok := (*op).(*ssa.Global); ok && strings.HasSuffix(g.Name(), "KeyFmt") {
+					out[g.Name()] = true
+				}
+			}
+		}
+	}
+	for _, an := range fn.AnonFuncs {
+		keyFmtGlobals(an, out)
+	}
+}
+
+func c07Round4(c *Ctx, ix *Index) {
+	// seeds 10 and 11 were reported by C06 only: both are about what a crash between two writes (or a restart) leaves.
+	c.WithRules(map[string]string{"C06.*": "C07.recover"}, func() {
+		c06Round3(c)
+		c06SeqNoRules(c, ix)
+	})
+	// seed 12: pathbadger's clean-up of an unfinished multipart restore (which also runs at start-up) touches only
+	// what the restore log lists — keys of the restore log itself and the node keys decoded from it. It has no guard
+	// "the version was finalized meanwhile" (badger's has), so anything else it deleted by prefix — the root records of
+	// the version — would be deleted for a restore whose Finalize had already committed before the crash.
+	if fn := c.needFn("C07.recover", "storage/mkvs/db/pathbadger.(*badgerNodeDB).cleanMultipartLocked"); fn != nil {
+		c.Analysed[fname(fn)] = true
+		gl := map[string]bool{}
+		keyFmtGlobals(fn, gl)
+		allowed := map[string]bool{"multipartRestoreNodeLogKeyFmt": true, "finalizedNodeKeyFmt": true, "pendingNodeKeyFmt": true}
+		var extra []string
+		for g := range gl {
+			if !allowed[g] {
+				extra = append(extra, g)
+			}
+		}
+		sort.Strings(extra)
+		c.Check(len(gl) >= 2 && len(extra) == 0, "C07.recover", fname(fn)+":the clean-up deletes only what the restore log lists", c.P.Pos(fn.Pos()), "key formats used: {"+joinKeys(gl)+"}", "the multipart clean-up (also run at start-up) uses key format(s) "+strings.Join(extra, ", ")+" besides the restore log and the node keys decoded from it: records deleted by prefix are deleted also when the restored version was already finalized before the crash (this clean-up has no such guard) — a finalized version without its root")
+	}
+}
+
+func c11Round4(c *Ctx) {
+	const pk = "consensus/cometbft/apps/roothash"
+	// seed 10: re-arming a round timeout to the same height is a no-op, and otherwise the old queue entry is cleared
+	// before the new one is scheduled (the queue is keyed by height and runtime: schedule-then-clear for the same height
+	// deletes the entry just written while NextTimeout still names it, and the round waits for ever).
+	if fn := c.needFn("C11.reset", pk+".rearmRoundTimeout"); fn != nil {
+		clear := CallsTo(fn, "ClearRoundTimeout", pk+"/state.(*MutableState).ClearRoundTimeout", "")
+		sched := CallsTo(fn, "ScheduleRoundTimeout", pk+"/state.(*MutableState).ScheduleRoundTimeout", "")
+		both := Ev{Name: "Clear/ScheduleRoundTimeout", Fn: fn, Ins: append(append([]ssa.Instruction{}, clear.Ins...), sched.Ins...)}
+		c.DominatedByCond("C11.reset", fn, "prevTimeout != nextTimeout", `^param:nextTimeout != param:prevTimeout$|^param:prevTimeout != param:nextTimeout$`, both, "the timeout queue is touched only when the timeout height changes")
+		ok := !clear.Empty() && !sched.Empty()
+		for _, s := range sched.Ins {
+			if Reach(fn, s, nil, anyOf(clear.Ins), nil) != nil {
+				ok = false
+			}
+		}
+		c.Check(ok, "C11.reset", fname(fn)+":the old timeout is cleared before the new one is scheduled", c.P.Pos(fn.Pos()), "no ClearRoundTimeout is reachable after ScheduleRoundTimeout", "rearmRoundTimeout schedules the new timeout before clearing the old one: for equal heights the entry just written is deleted, NextTimeout still names that height, the timer never fires and the round never ends by timeout")
+	}
+	// seed 11: roothash switches the runtimes over to their committees whenever the scheduler elected — on an epoch
+	// transition AND on a re-election within the epoch (after slashing): BeginBlock returns without onCommitteeChanged
+	// only where the scheduler's ElectedEvent was looked for and is absent.
+	if fn := c.needFn("C11.admit", pk+".(*Application).BeginBlock"); fn != nil {
+		c.Analysed[fname(fn)] = true
+		occ := CallsTo(fn, "onCommitteeChanged", pk+".(*Application).onCommitteeChanged", "")
+		cut := NewCut().AddInstr(occ.Ins...)
+		held := HeldEdges(fn, `^!consensus/cometbft/api\.\(\*Context\)\.HasEvent\(.*ElectedEvent.*\)$`)
+		cut.AddEdges(held...)
+		isRet := func(in ssa.Instruction) bool { _, ok := in.(*ssa.Return); return ok }
+		hit := Reach(fn, nil, nil, isRet, cut)
+		site := c.P.Pos(fn.Pos())
+		if hit != nil {
+			site = c.P.InstrPos(hit)
+		}
+		c.Check(!occ.Empty() && len(held) > 0 && hit == nil, "C11.admit", fname(fn)+":committees are refreshed whenever the scheduler elected", site, "BeginBlock returns without onCommitteeChanged only where HasEvent(ElectedEvent) is false", "roothash BeginBlock can return without refreshing the runtimes' committees although the scheduler elected in this block (a re-election within the epoch, e.g. after slashing): the stale committee and pool stay, and a node that lost its seat still proposes and votes — a state root is accepted on the word of non-members")
+	}
+	// seed 12: each commitment of an ExecutorCommit transaction is handed to the pool as its own object: the pool keeps
+	// the pointer (the scheduler's commitment), so the variable whose address is passed is allocated per iteration.
+	if fn := c.needFn("C11.admit", pk+".(*Application).executorCommit"); fn != nil {
+		c.Analysed[fname(fn)] = true
+		n := 0
+		ok := true
+		site := c.P.Pos(fn.Pos())
+		for _, call := range callsIn(fn) {
+			if calleeName(call) != "roothash/api/commitment.(*Pool).AddVerifiedExecutorCommitment" {
+				continue
+			}
+			n++
+			a := allArgs(call)
+			al, isAlloc := a[len(a)-1].(*ssa.Alloc)
+			if !isAlloc || !inCycle(al.Block()) {
+				ok = false
+				site = c.P.InstrPos(call)
+			}
+		}
+		c.Check(ok && n > 0, "C11.admit", fname(fn)+":every commitment handed to the pool is its own object", site, "the pointer passed to AddVerifiedExecutorCommitment is a variable allocated inside the loop", "the commitments of one transaction are handed to the pool through one variable that outlives the loop iteration: the pool keeps the pointer to the scheduler's commitment, which the next commitment of the same transaction overwrites before the state is stored — the block is built from a header the votes did not agree on")
+	}
+}
+
+func c12Round4(c *Ctx) {
+	const pk = "storage/mkvs/checkpoint"
+	// seed 10: what writeChunk hashes is what it has written: the destination writer itself is one of the MultiWriter's
+	// targets (a buffer in between is flushed after the digest was built; a deferred flush drops the write error, and the
+	// checkpoint lists a digest for a chunk that is not on disk).
+	if fn := c.needFn("C12.determinism", pk+".writeChunk"); fn != nil {
+		c.Analysed[fname(fn)] = true
+		ok := false
+		site := c.P.Pos(fn.Pos())
+		for _, call := range callsIn(fn) {
+			if calleeName(call) != "io.MultiWriter" {
+				continue
+			}
+			site = c.P.InstrPos(call)
+			for _, el := range variadicElems(call.Common().Args[0]) {
+				v := el
+				if mi, isMI := v.(*ssa.MakeInterface); isMI {
+					v = mi.X
+				}
+				if p, isP := v.(*ssa.Parameter); isP && pname(p) == "w" {
+					ok = true
+				}
+			}
+		}
+		c.Check(ok, "C12.determinism", fname(fn)+":the chunk bytes go to the destination and to the digest in the same write", site, "the destination writer is a direct target of the MultiWriter that also feeds the digest", "writeChunk no longer writes to its destination in the same call that feeds the digest (a buffer or wrapper sits in between): bytes are hashed before they are written, a write error surfacing in a later flush is not part of the result, and the checkpoint metadata lists the digest of a chunk that is not (completely) on disk")
+	}
+	// seed 11: a chunk file is served whole.
+	if fn := c.needFn("C12.restore", pk+".(*fileCreator).GetCheckpointChunk"); fn != nil {
+		cp := CallsTo(fn, "io.Copy(w, f)", "io.Copy", "")
+		c.successOnlyVia("C12.restore", fn, cp, "a chunk is served by copying the whole file (a limited or partial copy serves bytes whose digest is not the one in the metadata, and the restorer rejects the chunk for ever)")
+	}
+}
+
+func c13Round4(c *Ctx, ix *Index) {
+	// seed 11: pathbadger's per-version sequence numbers are only ever handed out, never handed back.
+	c.WithRules(map[string]string{"C06.*": "C13.resolve"}, func() { c06SeqNoRules(c, ix) })
+	n := 0
+	for _, fn := range c.P.FuncsInPkg("storage/mkvs/db/pathbadger") {
+		for _, b := range fn.Blocks {
+			for _, in := range b.Instrs {
+				mu, ok := in.(*ssa.MapUpdate)
+				if !ok {
+					continue
+				}
+				mt, ok := mu.Map.Type().Underlying().(*types.Map)
+				if !ok {
+					continue
+				}
+				kb, ok1 := mt.Key().Underlying().(*types.Basic)
+				vb, ok2 := mt.Elem().Underlying().(*types.Basic)
+				if !ok1 || !ok2 || kb.Kind() != types.Uint8 || vb.Kind() != types.Uint16 {
+					continue
+				}
+				if !strings.Contains(vstr(mu.Map), "NextPendingRootSeq") {
+					continue
+				}
+				n++
+				grows := false
+				if bo, isBO := mu.Value.(*ssa.BinOp); isBO && bo.Op == token.ADD {
+					grows = true
+				}
+				c.Check(grows && fname(fn) == "storage/mkvs/db/pathbadger.(*metadata).reserveRootSeqNo", "C13.resolve", fname(fn)+":sequence numbers of a version are only handed out", c.P.InstrPos(in), "the counter is incremented by the reservation", "a per-version sequence number counter is written other than by incrementing it in reserveRootSeqNo: a number handed back while a later one is in use is given out again, the new root's pending nodes overwrite a committed root's, and a write log served later resolves to the other fork's leaves")
+			}
+		}
+	}
+	c.Floor("C13.resolve", n, 1, "updates of the per-version sequence number counters")
+	// seed 12: when streaming a write log from badger, a value that cannot be read is an error: the closure that
+	// resolves an inserted leaf returns what GetNode returned (a nil value is the encoding of a removal).
+	nc := 0
+	if fn := c.needFn("C13.writelog", "storage/mkvs/db/badger.(*badgerNodeDB).GetWriteLog"); fn != nil {
+		var visit func(f *ssa.Function)
+		visit = func(f *ssa.Function) {
+			res := f.Signature.Results()
+			if res.Len() == 2 && namedOf(derefType(res.At(0).Type())) == "storage/mkvs/node.LeafNode" {
+				nc++
+				c.Analysed[fname(f)] = true
+				ok := true
+				site := c.P.Pos(f.Pos())
+				for _, r := range Returns(f) {
+					if r.Block() == f.Recover {
+						continue
+					}
+					v := unspill(r.Results[0])
+					if isNilConst(v) {
+						continue
+					}
+					if !strings.Contains(vstr(v), ".GetNode(") {
+						ok = false
+						site = c.P.InstrPos(r)
+					}
+				}
+				c.Check(ok, "C13.writelog", fname(f)+":the leaf of a write log entry is the one read from the database", site, "every non-nil leaf returned comes from GetNode", "the closure that resolves an inserted leaf of a stored write log can return a leaf that was not read from the database (an empty one for a missing node): a nil value encodes a removal, so an unreadable insertion is streamed as a removal and the receiver applies a different transition than the announced one")
+			}
+			for _, an := range f.AnonFuncs {
+				visit(an)
+			}
+		}
+		visit(fn)
+	}
+	c.Floor("C13.writelog", nc, 1, "leaf resolvers in badger GetWriteLog")
+	// seed 10: the "root already exists" shortcut of badger's Commit writes nothing (the write log of an end root is
+	// stored once, with the commit that created it; a second log under another start root gives the hop search siblings).
+	if fn := c.needFn("C13.hops", "storage/mkvs/db/badger.(*badgerBatch).Commit"); fn != nil {
+		c.Analysed[fname(fn)] = true
+		start := HeldEdges(fn, `\.Roots\[.*\] != nil$`)
+		cut := NewCut().AddEdges(HeldEdges(fn, `^[^!].*\.chunk$`)...)
+		wr := func(in ssa.Instruction) bool {
+			call, ok := in.(ssa.CallInstruction)
+			if !ok {
+				return false
+			}
+			n := calleeName(call)
+			return strings.HasSuffix(n, "badger/v4.(*WriteBatch).Set") || strings.HasSuffix(n, "badger/v4.(*Txn).Set") || strings.HasSuffix(n, "badger/v4.(*WriteBatch).Flush") || strings.HasSuffix(n, "badger/v4.(*Txn).CommitAt")
+		}
+		var hit ssa.Instruction
+		if len(start) > 0 {
+			hit = Reach(fn, nil, start, wr, cut)
+		}
+		site := c.P.Pos(fn.Pos())
+		if hit != nil {
+			site = c.P.InstrPos(hit)
+		}
+		c.Check(len(start) > 0 && hit == nil, "C13.hops", fname(fn)+":committing a root that already exists writes nothing", site, "no database write is reachable on the root-exists path (outside chunk import)", "badger's Commit writes to the database on the path where the root already exists: a second write log stored for the same end root under another start root gives the multi-hop search sibling paths, and a served two-hop log can combine hops of different paths — it does not reproduce the announced end root")
+	}
+}
